@@ -2,6 +2,8 @@
 
 package spec
 
+import "encoding/json"
+
 // C08 — expansion never fails silently: an unresolvable $ref on the way is an error (strict mode), or stays
 // verbatim while everything else is expanded as usual (continue-on-error mode).
 
@@ -77,7 +79,7 @@ func vh_C08_faults() { vC08Run(vWorldFaulty()) }
 // every keyword position, with the reference one level below it (a sub-schema of the sub-schema)
 func vWorldFaultyDeep() *vWorld {
 	vUseURLSet(0)
-	kp := vChoose(len(vKwPos), "kwpos.deep")
+	kp := vChoose(len(vKwPos)+1, "kwpos.deep") // the last one: the middle element of a tuple between two good references
 	t := vPickRef("T", vURoot, []vTarget{
 		{doc: vURoot, frag: "/definitions/B", single: true},
 		{doc: vURoot, frag: "/definitions/Nope", single: true},
@@ -89,8 +91,19 @@ func vWorldFaultyDeep() *vWorld {
 		inner = `{"description":"inner","properties":{"extra":` + vRefJSON(t) + `}}`
 	}
 	w := &vWorld{root: vURoot, docs: map[string]string{}, fail: map[string]bool{}}
+	defA := ""
+	if kp == len(vKwPos) {
+		if inner == "" {
+			inner = `{"description":"inner"}`
+		} else if vChoose(2, "tuple.direct") == 1 {
+			inner = vRefJSON(t) // the element is the reference itself
+		}
+		defA = `{"description":"la","items":[{"$ref":"#/definitions/B"},` + inner + `,{"$ref":"#/definitions/B"}]}`
+	} else {
+		defA = vDefJSON("la", kp, inner)
+	}
 	w.docs[vURoot] = `{"swagger":"2.0","info":{"title":"t","version":"1"},"paths":{},` +
-		`"definitions":{"A":` + vDefJSON("la", kp, inner) + `,"B":{"description":"lb"}}}`
+		`"definitions":{"A":` + defA + `,"B":{"description":"lb"}}}`
 	return w
 }
 
@@ -134,4 +147,28 @@ func vC08Run(w *vWorld) {
 		vNote(b.why)
 	}
 	vAssert(same, "with ContinueOnError: an unresolvable $ref is not left verbatim, or resolvable parts are not expanded as usual")
+	// "everything else is expanded as usual": a $ref that remains either cannot be resolved to an object, or sits on a cycle
+	var g interface{}
+	if json.Unmarshal([]byte(ow.docs[w.root]), &g) != nil {
+		return
+	}
+	var refs [][2]string
+	vAllRefs(g, "", &refs)
+	for _, hr := range refs {
+		id, ok := vResolveRef(w.root, hr[1])
+		if !ok {
+			continue
+		}
+		n, exists := w.node(id)
+		if !exists {
+			continue
+		}
+		if _, isObj := n.(map[string]interface{}); !isObj {
+			continue
+		}
+		if w.unresolvableFrom(id) {
+			continue // what it designates cannot be expanded itself
+		}
+		vAssert(w.onCycle(id), "with ContinueOnError: a $ref that resolves, to something that expands, and closes no cycle is left unexpanded")
+	}
 }
